@@ -114,6 +114,10 @@ def append (l : Log) (pc : Int) (h : Hash) (tag : Nat := 0) : Entry × Log :=
   let e : Entry := { hash := h, logId := l.id, next := p.next, refs := p.refs, clock := p.clock, tag := tag }
   (e, appendApply l e)
 
+/-- inner loop of `difference` over `eA.next`: push every hash that is neither traversed nor in B -/
+def diffPush (EB : List Entry) (st : List Hash × List Hash) (c : Hash) : List Hash × List Hash :=
+  if !st.2.contains c && !has EB c then (st.1 ++ [c], c :: st.2) else st
+
 /-- `difference(entriesA, headsA, logB)` (log.go l.620-662): worklist from the heads of A along
     `next`, never entering B.  state = (stack, traversed, res) -/
 def diffLoop (EA : List Entry) (EB : List Entry) (idB : Bytes) :
@@ -126,14 +130,13 @@ def diffLoop (EA : List Entry) (EB : List Entry) (idB : Bytes) :
       if !has EB h && eA.logId == idB then
         let res' := omSet res eA
         let trav' := if trav.contains h then trav else h :: trav
-        let step := eA.next.foldl (fun (st : List Hash × List Hash) c =>
-          if !st.2.contains c && !has EB c then (st.1 ++ [c], c :: st.2) else st) (stack, trav')
+        let step := eA.next.foldl (diffPush EB) (stack, trav')
         diffLoop EA EB idB fuel step.1 step.2 res'
       else diffLoop EA EB idB fuel stack trav res
     | none => diffLoop EA EB idB fuel stack trav res
 
 def diffFuel (EA HA : List Entry) : Nat :=
-  HA.length + (EA.foldl (fun n e => n + e.next.length) 0) + 1
+  HA.length + (EA.flatMap (·.next)).length + 1
 
 def difference (EA HA : List Entry) (l : Log) : List Entry :=
   if EA.length = 0 ∨ HA.length = 0 then []
@@ -144,30 +147,39 @@ inductive JoinResult where
   | err            -- verification / access control failed: the log is returned unchanged
 deriving Repr
 
+/-- first half of `Join` (log.go l.564-595): add the new items to `Entries` and `Next`, recompute heads -/
+def joinMerge (l : Log) (otherE otherH : List Entry) : Log :=
+  let newItems := difference otherE otherH l
+  let nextIdx' := newItems.foldl (fun idx e => e.next.foldl hsSet idx) l.nextIdx
+  let entries' := newItems.foldl omSet l.entries
+  let nextsFromNew : List Hash := newItems.foldl (fun acc e => acc ++ e.next) []
+  let merged := findHeads (omMerge l.heads otherH)
+  let mergedHeads := merged.filter (fun e => !nextsFromNew.contains e.hash && !nextIdx'.contains e.hash)
+  { l with entries := entries', nextIdx := nextIdx', heads := omFromList mergedHeads }
+
+/-- log.go l.598-603: keep the last `size` values, all of them when there are fewer -/
+def keepLast (size : Int) (tmp : List Entry) : List Entry :=
+  if size < tmp.length then tmp.drop (tmp.length - size.toNat) else tmp
+
+/-- the size bound (log.go l.597-606); `Next` is not rebuilt -/
+def joinTrim (l1 : Log) (size : Int) : Log :=
+  if size > -1 then
+    let tmp := keepLast size (values l1)
+    { l1 with entries := omFromList tmp, heads := omFromList (findHeads (omFromList tmp)) }
+  else l1
+
+/-- log.go l.608-615: the clock moves up to the newest head -/
+def joinClock (l2 : Log) : Log :=
+  { l2 with clock := { id := l2.clock.id, time := max l2.clock.time (maxTime l2.heads 0) } }
+
 /-- `Join(otherLog, size)` after the argument checks; `otherE`/`otherH` are the view of the other
     log read before the lock is taken (log.go l.527-633).  `valid` abstracts
     `CanAppend ∧ Verify` for each candidate. -/
 def join (l : Log) (otherId : Bytes) (otherE otherH : List Entry) (size : Int)
     (valid : Entry → Bool := fun _ => true) : JoinResult :=
   if l.id ≠ otherId then .ok l else
-  let newItems := difference otherE otherH l
-  if newItems.any (fun e => !valid e) then .err else
-  let nextIdx' := newItems.foldl (fun idx e => e.next.foldl hsSet idx) l.nextIdx
-  let entries' := newItems.foldl omSet l.entries
-  let nextsFromNew : List Hash := newItems.foldl (fun acc e => acc ++ e.next) []
-  let merged := findHeads (omMerge l.heads otherH)
-  let mergedHeads := merged.filter (fun e => !nextsFromNew.contains e.hash && !nextIdx'.contains e.hash)
-  let l1 : Log := { l with entries := entries', nextIdx := nextIdx', heads := omFromList mergedHeads }
-  let l2 : Log :=
-    if size > -1 then
-      let tmp := lastN' size (values l1)
-      { l1 with entries := omFromList tmp, heads := omFromList (findHeads (omFromList tmp)) }
-    else l1
-  .ok { l2 with clock := { id := l2.clock.id, time := max l2.clock.time (maxTime l2.heads 0) } }
-where
-  /-- log.go l.598-603: keep the last `size` values, all of them when there are fewer -/
-  lastN' (size : Int) (tmp : List Entry) : List Entry :=
-    if size < tmp.length then tmp.drop (tmp.length - size.toNat) else tmp
+  if (difference otherE otherH l).any (fun e => !valid e) then .err else
+  .ok (joinClock (joinTrim (joinMerge l otherE otherH) size))
 
 /-- `NewLog` from loaded entries and (possibly empty) heads -/
 def newLog (id : Bytes) (clockId : Bytes) (k : SortKind) (entries : List Entry) (heads : List Entry) : Log :=
